@@ -51,7 +51,7 @@ def gen_call(rng):
 def gen_case(seed, tier):
     rng = random.Random('%s/c16' % seed)
     stampede = rng.random() < 0.2
-    ignore = rng.choice(([], [], [], [0], [1], ['a'], [0, 'x']))
+    ignore = rng.choice(([], [], [], [0], [1], ['a'], [0, 'x'], [0, 2], [0, 1], [1, 2], [0, 2, 'a']))
     cfg = {'wrap': 'stampede' if stampede else rng.choice(('cache', 'cache', 'fanout', 'index', 'django')),
            'typed': rng.random() < 0.5, 'ignore': ignore, 'name': rng.choice((None, None, 'fn-name')),
            'expire': rng.choice((None, None, 0, 5)), 'f12': rng.random() < 0.03}
